@@ -440,6 +440,52 @@ def run(ctx: lib.Ctx) -> None:
         else:
             cases.append((inp, coq_out))
             meta.append((t, pool, ptr, chain, lit, script, out, why, src, vt))
+    # ---- big_map literals in the storage: accepted iff the keys are strictly increasing (duplicate keys with
+    #      ascending / equal / descending values, adjacent swaps, valid ones)
+    lcases, lmeta = [], []
+    for _ in range(ctx.n(50, 600)):
+        t, pool, _ptr, _chain, _lit, _script, vt = gen_case(rng, 3)
+        if vt.ticket:
+            vt = rng.choice(V.VALUE_TYPES[:6])
+        ks = sorted([v for v in pool if rng.random() < 0.7], key=V.spec_key(t))
+        ents = [(k, vt.gen(rng)) for k in ks]
+        k = rng.random()
+        shape = 'sorted'
+        if ents and k < 0.55:
+            i = rng.randrange(len(ents))
+            n = 6 if vt.is_int else len(vt.lits)
+            lo = rng.randrange(0, n - 1)
+            hi = rng.randrange(lo + 1, n)
+            a, b = rng.choice([(lo, hi), (lo, hi), (lo, lo), (hi, lo)])
+            ents[i:i + 1] = [(ents[i][0], a), (ents[i][0], b)]
+            shape = 'duplicate:' + ('ascending' if a < b else 'equal' if a == b else 'descending')
+        elif len(ents) >= 2 and k < 0.7:
+            i = rng.randrange(len(ents) - 1)
+            ents[i], ents[i + 1] = ents[i + 1], ents[i]
+            shape = 'swapped'
+        res, src = run_impl(t, pool, None, {}, ents, [], vt)
+        accepted = not isinstance(res, str)
+        want = all(V.spec_cmp(t, ents[i][0], ents[i + 1][0]) < 0 for i in range(len(ents) - 1))
+        ctx.case(('literal', t, tuple(map(repr, ents))), nontrivial=shape != 'sorted', kind=f'storage-literal:{shape}',
+                 sample={'key_type': V.type_src(t), 'value_type': vt.src, 'literal': [(V.value_src(k), vt.lit(z)) for k, z in ents], 'accepted': accepted})
+        if accepted != want and reported < 3:
+            reported += 1
+            ctx.violation(f'big_map literal {"accepted" if accepted else "rejected"} although its keys are {"strictly increasing" if want else "unsorted or repeated"}',
+                          {'key_type': V.type_src(t), 'value_type': vt.src, 'literal': '{ ' + ' ; '.join(f'Elt {V.value_src(k)} {vt.lit(z)}' for k, z in ents) + ' }',
+                           'result': res if isinstance(res, str) else 'accepted', 'contract': src,
+                           'repro': 'Interpreter.run_code(Unit, Pair <literal> {}, contract) as in harness/c15.py run_impl'})
+        lcases.append((f'({V.tables_coq(pool)}, {clist(f"({V.value_coq(k)}, {cZ(z)})" for k, z in ents)})', cbool(accepted)))
+        lmeta.append((accepted == want, t, ents, vt))
+    lbad = V.par_mismatches(ctx, 'bigmaplit', IMPORTS,
+                            'fun x => let T := texts_of (fst x) in accepted (map_literal (py_eq T) (py_lt T) (snd x))', 'Bool.eqb',
+                            'text_tables * list (val * Z)', 'bool', lcases, shard=400)
+    lbad = [i for i in lbad if lmeta[i][0]]
+    if lbad and reported == 0:
+        ok_, t, ents, vt = lmeta[lbad[0]]
+        ctx.violation('implementation no longer corresponds to the model the theorems are about',
+                      {'correspondence': 'C15/big_map literal (MapType.check_constraints) vs Michelson.Collections.map_literal',
+                       'key_type': V.type_src(t), 'literal': [(V.value_src(k), vt.lit(z)) for k, z in ents]}, found=False)
+        reported += 1
     bad = V.par_mismatches(ctx, 'bigmap', IMPORTS, 'bm_case', 'bm_case_eqb',
                            'text_tables * list (val * bytes) * list (bytes * Z) * list (val * Z) * list bm_instr', 'bm_case_out',
                            cases, shard=ctx.n(60, 160))
